@@ -3,11 +3,12 @@
 A change is stored only when seedeval confirmed it: demo passes without, fails with, suite passes with."""
 import json, os, re, shutil, sys
 R = "/verif"
+SR = os.environ.get("SEEDROOT", "/tmp/seed2")
 lines = [l.rstrip("\n") for l in open(R + "/.work/seedbatch.txt")]
 notes = json.load(open(R + "/tools/seednotes.json")) if os.path.exists(R + "/tools/seednotes.json") else {}
 res = {}
 for l in lines:
-    m = re.match(r"(C\d\d)-(\d) SEEDEVAL C\d\d (.*)", l)
+    m = re.match(r"(C\d\d)-((?:r\d-)?\d) SEEDEVAL C\d\d (.*)", l)
     if not m:
         continue
     key = "%s-%s" % (m.group(1), m.group(2))
@@ -26,27 +27,28 @@ def section(text, pat):
     return ""
 
 for key, rs in sorted(res.items()):
-    prop, k = key.split("-")
+    prop, k = key.split("-", 1)
+    kk = k.split("-")[-1]          # the author's suffix (patch<kk>.diff)
     conf = [r for r in rs if r.startswith("demo_without")]
     chk = [r for r in rs if r.startswith("check=")]
     if not conf or "demo_without=0 demo_with=1 suite_with=0" not in conf[0]:
         print("NOT CONFIRMED", key, rs); continue
-    src = "/tmp/seed/%s/_seed" % prop
+    src = "%s/%s/_seed" % (SR, prop)
     d = os.path.join(R, "seeded", key)
     os.makedirs(d, exist_ok=True)
-    shutil.copyfile(os.path.join(src, "patch%s.diff" % k), os.path.join(d, "patch.diff"))
-    demo = os.path.join(src, "demo%s_test.go" % k)
+    shutil.copyfile(os.path.join(src, "patch%s.diff" % kk), os.path.join(d, "patch.diff"))
+    demo = os.path.join(src, "demo%s_test.go" % kk)
     if os.path.exists(demo):
         shutil.copyfile(demo, os.path.join(d, "demo_test.go.txt"))
-    elif os.path.isdir(os.path.join(src, "demo%s" % k)):
+    elif os.path.isdir(os.path.join(src, "demo%s" % kk)):
         dd = os.path.join(d, "demo")
         shutil.rmtree(dd, ignore_errors=True)
-        shutil.copytree(os.path.join(src, "demo%s" % k), dd, ignore=shutil.ignore_patterns(".out"))
+        shutil.copytree(os.path.join(src, "demo%s" % kk), dd, ignore=shutil.ignore_patterns(".out"))
         for root, _, files in os.walk(dd):          # keep Go sources inert inside /verif
             for f in files:
                 if f.endswith(".go") or f in ("go.mod", "go.sum"):
                     os.rename(os.path.join(root, f), os.path.join(root, f + ".txt"))
-    mt = os.path.join(src, "meta%s.txt" % k)
+    mt = os.path.join(src, "meta%s.txt" % kk)
     text = open(mt).read() if os.path.exists(mt) else ""
     verdict = "; ".join(c.replace("check=", "./check ", 1) for c in chk)
     caught = "VIOLATION" in verdict
